@@ -4994,7 +4994,15 @@ func IsSubTypeOfSemaType(typeConverter TypeConverter, staticSubType StaticType, 
 		}
 
 		switch superType {
-		case sema.AnyStructType, sema.AnyResourceType:
+		case sema.AnyStructType:
+			return IsSubTypeOfSemaType(typeConverter, staticSubType.Type, superType)
+
+		case sema.AnyResourceType:
+			// `Never?` (the type of `nil`) is not resource-kinded,
+			// the checker does not consider it a subtype of `AnyResource`
+			if staticSubType.Type == PrimitiveStaticTypeNever {
+				return false
+			}
 			return IsSubTypeOfSemaType(typeConverter, staticSubType.Type, superType)
 		}
 
